@@ -10,6 +10,8 @@ import Distill.Model.Embed
 import Distill.Model.Markup
 import Distill.Model.Apply
 import Distill.Model.Convert
+import Distill.Model.Words
+import Distill.Model.Render
 namespace Distill.Slices
 open Distill Distill.Proto
 
@@ -265,6 +267,18 @@ def builderSlice : P String := do
   let evs ← many n bevP
   pure (" ".intercalate ((buildDoc evs).map docElStr))
 
+/-- `countwords text` -/
+def countWordsSlice : P String := do
+  let s ← str
+  pure s!"{countWords s.toList}"
+
+def attrsStr (as : List Attr) : String := " ".intercalate (as.map (fun a => s!"{hex a.key}={hex a.val}"))
+
+/-- `strip tree` → attributes of every element after StripAttributes, pre-order -/
+def stripSlice : P String := do
+  let t ← node
+  pure ("|".intercalate ((stripNode t).elems.map (fun e => s!"{e.tag}:{attrsStr e.attrs}")))
+
 def dispatch (slice : String) : Option (P String) :=
   match slice with
   | "docfilters" => some docfilters
@@ -276,6 +290,8 @@ def dispatch (slice : String) : Option (P String) :=
   | "applytail" => some applyTailSlice
   | "convert" => some convertSlice
   | "builder" => some builderSlice
+  | "countwords" => some countWordsSlice
+  | "strip" => some stripSlice
   | _ => none
 
 def answer (line : String) : String :=
